@@ -57,7 +57,11 @@ pub fn make_module() -> KMap {
 
         match ctx.instance_and_args(is_list, expected_error)? {
             (KValue::List(l), [KValue::List(other)]) => {
-                l.data_mut().extend(other.data().iter().cloned());
+                // Copy the other list's entries before borrowing the target mutably:
+                // `l.extend l` would otherwise borrow the same cell twice
+                // (a panic with the rc feature, a deadlock with the arc feature).
+                let other_data = other.data().clone();
+                l.data_mut().extend(other_data);
                 Ok(KValue::List(l.clone()))
             }
             (KValue::List(l), [KValue::Tuple(other)]) => {
@@ -145,11 +149,15 @@ pub fn make_module() -> KMap {
         match ctx.instance_and_args(is_list, expected_error)? {
             (KValue::List(l), [KValue::Number(n), value]) => {
                 let index: usize = n.into();
-                if *n < 0.0 || index > l.data().len() {
-                    return runtime_error!("index out of bounds");
+                {
+                    // A single borrow for the bounds check and the insertion,
+                    // the list might be shared with other threads
+                    let mut data = l.data_mut();
+                    if *n < 0.0 || index > data.len() {
+                        return runtime_error!("index out of bounds");
+                    }
+                    data.insert(index, value.clone());
                 }
-
-                l.data_mut().insert(index, value.clone());
                 Ok(KValue::List(l.clone()))
             }
             (instance, args) => unexpected_args_after_instance(expected_error, instance, args),
@@ -207,11 +215,14 @@ pub fn make_module() -> KMap {
         match ctx.instance_and_args(is_list, expected_error)? {
             (KValue::List(l), [KValue::Number(n)]) => {
                 let index: usize = n.into();
-                if *n < 0.0 || index >= l.data().len() {
+                // A single borrow for the bounds check and the removal,
+                // the list might be shared with other threads
+                let mut data = l.data_mut();
+                if *n < 0.0 || index >= data.len() {
                     return runtime_error!("index out of bounds");
                 }
 
-                Ok(l.data_mut().remove(index))
+                Ok(data.remove(index))
             }
             (instance, args) => unexpected_args_after_instance(expected_error, instance, args),
         }
